@@ -122,6 +122,14 @@ CHECKS = {
             'get_pfb_waterfall / get_waterfall_from_raw must equal an own reduction for padded, unpadded and aligned headers.',
             'statistics estimated once from the first block (no per-sub-block mean removal); DC bin ignored for chirps; saturating 4-bit FWHM not generated',
             'DESIGN.md 3/C07'),
+    'C14': ('exploration',
+            'generated input recordings written by an independent GUPPI writer; decode differential, framing invariants, tone demodulation invariant over sub-blocks/blocks, exact two-stage requantisation model (differential) for one sub-block per block',
+            'Inputs (8/4 bit, 1-2 pols, 1-3 antennas, DIRECTIO absent/0/1, aligned headers, several files with a partial last one, distinct statistics '
+            'per antenna/pol) are produced by the independent writer; every block from _read_next_block must equal the independent decode; the output must '
+            'keep the input framing and min(requested, input) blocks; the demodulated tone amplitude must be stationary over sub-blocks and blocks; with '
+            'num_subblocks=1 the output must equal an exact model sample for sample; channelized_stds must be unchanged by a recording.',
+            'gain band [0.4,2.5] x median on segments >= 32 spectra (inherent +-25% scatter from per-sub-block statistics); exact model only for num_subblocks=1',
+            'DESIGN.md 3/C14'),
 }
 
 ALL = [f'C{i:02d}' for i in range(1, 21)]
